@@ -11,62 +11,152 @@ from eqsig import exceptions as eq_exc
 from eqsig.fns import generic as fns_generic
 
 from pbt import gen
-from pbt.core import clause, enum_clause, HarnessError
+from pbt.core import clause, enum_clause, HarnessError, _short
 
 PROPERTY = "C17"
 CLAUSES = []
 ASSUMPTIONS = [
-    "Butterworth domain: cut-offs between 0.002 and 0.8 of the Nyquist frequency, band ratio f_hi/f_lo >= 1.5, orders 1..4, "
-    "dt in [1e-4, 1]; records longer than scipy's default filtfilt edge padding 3*(2*order+1) (shorter ones are rejected by "
-    "scipy itself)",
+    "Butterworth domain: cut-offs between 0.0006 and 0.95 of the Nyquist frequency (the statement names no range; below 0.0006 even "
+    "order-4 low / high pass designs leave the double-precision range of the (b, a) form, above 0.95 the bilinear transform has no "
+    "practical use), band ratio f_hi/f_lo >= 1.5, orders 1..4, dt in [1e-4, 1]; records longer than scipy's default filtfilt edge "
+    "padding 3*max(len a, len b) (shorter ones are rejected by scipy itself); generated from that minimum (7..28 samples) upwards",
     "'away from the ends of a record much longer than the longest cut-off period': the sinusoid record holds 60..90 periods of "
-    "the lowest cut-off (>= 150 samples) and the middle third is compared; tolerance, relative to the sinusoid amplitude: "
+    "the lowest cut-off (>= 150 samples, and >= 3 ln(1e-10)/ln(r_max) samples: near Nyquist the memory of the filter is not tied to "
+    "the cut-off period) and the middle third is compared (the mid-range enumeration compares everything further than "
+    "1.5 ln(1e-14)/ln(r_max) samples from both ends); tolerance, relative to the sinusoid amplitude: "
     "min(2e-3, 1e-8 + 40*(u*kappa + r_max^(n/3))) with kappa the conditioning of the (b, a) denominator (rounding of the coefficients, "
     "first-order bound) and r_max the largest pole radius of the design (what is left of the edge transients n/3 samples into the "
-    "record); measured on the pinned tree over 8000 designs: error <= 4.04*(u*kappa + r_max^(n/3)); 90 % of the designs are checked "
-    "to better than 1e-6 (the first version used the flat 2e-3 for every design and let a 2e-4 gain error through)",
-    "sinusoid frequencies: 0 < f <= 0.99 of Nyquist, placed by inverting the analytic gain at a drawn target gain in the pass "
+    "record); measured on the pinned tree over 8000 designs: error <= 4.04*(u*kappa + r_max^(n/3)) (6.5 over another 1150); 90 % of "
+    "the designs are checked to better than 1e-6.  The bound is a first-order bound on ANY double-precision (b, a) implementation "
+    "(zpk / second-order-section implementations are more accurate); the factor 40 is a safety factor, not a fit.  The tolerance is "
+    "relative to the amplitude A, not to g*A: the rounding noise of a recursive filter is proportional to its input, not to its output",
+    "sinusoid frequencies: 0 < f <= 0.998 of Nyquist, placed by inverting the analytic gain at a drawn target gain in the pass "
     "(g >= 0.9), transition or stop (g <= 0.01, target >= 1e-6) band; the class is decided from the gain at the frequency actually used",
     "conditioning guard (known finding C17-KF1): a design counts as well conditioned when (A) the roots (numpy.roots) of scipy's "
     "(b, a) denominator reproduce every designed pole p (butter(..., output='zpk')) to within 1e-3*(1-|p|) [DESIGN 3/C17] and "
     "(B) u*sum|a_k| / min_w |prod_k (e^{jw} - p_k)| <= 2.5e-4, u = 2^-53 [added: first-order bound on the relative gain error caused "
     "by rounding the denominator coefficients; (A) alone samples one realisation of the rounding noise and let through designs "
-    "with a gain error of 6e-3]; designs failing the guard (band-pass only: order 3 with f_lo/f_Nyq < 0.008 and "
-    "ratio <= 5, order 4 with f_lo/f_Nyq < 0.027 and ratio <= 30; never low / high pass or orders 1-2 inside the domain) are "
-    "checked for length, npts and dt only while C17-KF1 is open (scipy's own 'Filter not stable' ValueError is tolerated there) "
-    "and against the full statement in strict mode",
+    "with a gain error of 6e-3]; designs failing the guard (band-pass of order 3 with f_lo/f_Nyq < 0.008 and ratio <= 5, of order 4 "
+    "with f_lo/f_Nyq < 0.027 and ratio <= 30, of order 2 below 0.0008; never low / high pass inside the domain) are matched by C17-KF1. "
+    "While it is open the matched designs fall in two zones: u*kappa <= 1/64 (first-order zone; 40 % of the matched designs): gain and "
+    "linearity stay asserted with the uncapped bound 1e-8 + 16*(u*kappa + r_max^(n/3)) (measured: error / (u*kappa + r_max^lo) <= "
+    "1.44 over 2300 order-3/4 band-pass designs up to u*kappa = 0.1); beyond (the (b, a) form has broken down: errors of 0.02..1e300, "
+    "overflow, scipy's 'Filter not stable' ValueError): length, npts and dt only.  Strict mode asserts the full statement everywhere",
     "linearity tolerance 16*eps*(kappa+4)*scale with kappa = sum|a_k|/min_w|A(e^{jw})| of the design and scale = "
     "|alpha|*max|x| + |beta|*max|y|: rounding errors of relative size eps injected per sample are amplified by at most the "
     "peak gain of 1/A; measured worst case 2*eps*kappa*scale (DESIGN's flat 1e-9*scale is exceeded by rounding alone, up to "
     "2e-7*scale, for well-conditioned order-4 band-pass designs near the guard)",
-    "linearity records: float64, equal length 32..3000, |alpha|, |beta| in [1e-3, 1e3] or powers of two; gibbs_range is left at "
-    "its default 50",
+    "linearity records: float64 / int64 / list / strided or read-only views, equal length min..3000, |alpha|, |beta| in [1e-3, 1e3] or "
+    "powers of two; gibbs_extra omitted / 1 / 2; gibbs_range omitted / 1 / 7 / 50 / 200 / 1e5 (longer than the record: the mean of "
+    "the whole record); narrow integer and single-precision records are handled centrally (brief addendum), not here",
+    "'cut-offs may be given as list, tuple or array' and 'what numpy prints is no input': the outputs of two spellings / two process "
+    "states agree to 8*eps*(kappa+4)*A (an implementation may order the arithmetic differently for an array-valued cut-off)",
     "cut-offs 'as array' for low / high pass are object arrays [None, f] / [f, None] (the only way to spell a missing cut-off in an ndarray)",
-    "detrending: n >= k+4, k in 0..4, tolerance 1e-8 of max|record| (1e-8 of max(|record|, |added polynomial|) for the invariance "
-    "law); 'polynomial' means polynomial in the sample index; best fit = least squares over all samples (orthonormal Legendre "
-    "basis on the sample grid, QR); remove_average(section): section is the default -1, a positive count 1..n or a negative "
-    "offset -(n-1)..-1 (values[:section] non-empty)",
+    "detrending: n >= k+1 (below that the fit is not determined), k in 0..4, tolerance 1e-8 of max|record| (1e-8 of max(|record|, "
+    "|added polynomial|) for the invariance law); 'polynomial' means polynomial in the sample index; best fit = least squares over "
+    "all samples (orthonormal Legendre basis on the sample grid, QR)",
+    "remove_average is not named by the statement; what the statement's degree-0 claim implies for it is asserted: exactly one "
+    "constant is subtracted; that constant is the mean of the first `section` samples when the caller passes a positive count "
+    "(1..n); for the default and for negative sections (a slicing convention of the present code: the default -1 leaves out the "
+    "last sample) the mean of the whole record and the mean of values[:section] are both accepted",
     "add_*: element-wise sums are compared for equality with Python float/int additions (same IEEE operation); a time step is "
-    "'mismatched' when it differs by a factor outside [0.999, 1.001] (no claim about differences of a few ulps); rejected calls "
-    "must raise SignalProcessingError and leave the signal unchanged; non-Signal arguments: None, ndarray, list, float, dict, an "
-    "object with .values and .dt that is not a Signal",
-    "running average: float64 records (an integer-dtype record cannot hold the averages), n >= 2, integer widths 1..25; "
-    "'within floor(w/2) positions' is clipped to the record; tolerance 1e-12*max|record| (mean of <= 26 terms: <= 26*eps*max|record|)",
+    "'mismatched' when it differs by a relative 1e-12 or more (generated: factors 0.5..10 and 1 +- 1e-12..1e-3; no claim about "
+    "differences of a few ulps); 'rejects' = raises some exception (no class is named by the statement) and leaves the signal "
+    "unchanged; non-Signal arguments (None, ndarray, list, float, dict, an object with .values and .dt that is not a Signal) are not "
+    "covered by the statement: rejection is accepted, and so is the element-wise sum where the object carries a matching series; "
+    "anything else (None / number / dict accepted, a wrong-length series added) fails",
+    "running average: n >= 2, integer widths 1..25; float64, int64-array and list (of floats or Python ints) records - 'each sample "
+    "is replaced by the mean' is a real number whatever the container held; 'within floor(w/2) positions' is clipped to the record; "
+    "tolerance (w+8)*eps*max|x| + n*eps*max|prefix sum|/count: the first term bounds a direct mean, the second a prefix-sum "
+    "implementation (one rounding per accumulated sample)",
+    "mid-range enumerations: lengths from gen.size_ladder (2000..300000 quick, to 2e6 thorough; running average to 200000 / 600000: "
+    "the pinned implementation is a Python loop) - one per octave placed by hash of VERIF_SEED plus the integer literals of the "
+    "source under test; designs there are well conditioned by construction (hash-ordered candidates, first that passes the guard)",
 ]
 EPS = np.finfo(float).eps
 U = EPS / 2
 LD = np.longdouble
+
+
+def _hh(*parts):
+    import hashlib
+    return int(hashlib.blake2b(":".join(str(p) for p in parts).encode(), digest_size=8).hexdigest(), 16)
+
+
+def _build(spec):
+    """gen.build plus the 'mid' recipe of the mid-range enumerations: an ordinary record of n samples (noise x envelope on a
+    floor, a few sines + noise, or a random walk + noise), non-zero mean, a slow drift, no all-zero stretch, distinct values in
+    every stretch, amplitude of a few units x 10^amp."""
+    if spec["k"] != "mid":
+        return gen.build(spec)
+    n = int(spec["n"])
+    rs = np.random.RandomState(int(spec["seed"]) % (2 ** 31 - 1))
+    t = np.arange(n, dtype=float)
+    u = t / max(1, n - 1)
+    fam = spec.get("fam", 0) % 3
+    if fam == 0:
+        xx = (t + 1.0) / n
+        env = (xx ** 2) * np.exp(-6.0 * xx)
+        a = 3.0 * rs.standard_normal(n) * (0.05 + env / env.max()) + 0.37 + 0.8 * u - 1.1 * u ** 3
+    elif fam == 1:
+        a = (2.0 * np.sin(2 * np.pi * 7.3 * u + 0.4) + 1.1 * np.sin(2 * np.pi * t / 41.7) + 0.6 * np.sin(2 * np.pi * t / 9.3 + 1.0)
+             + 0.3 * rs.standard_normal(n) + 0.61 - 0.9 * u * u)
+    else:
+        w = np.cumsum(rs.standard_normal(n))
+        a = 3.0 * w / max(1e-9, float(np.max(np.abs(w)))) + 0.4 * rs.standard_normal(n) + 0.25 + 0.5 * u
+    return np.ascontiguousarray(a * 10.0 ** spec.get("amp", 0), dtype=float)
+
+
+def _container(spec, a):
+    if spec.get("as") == "intlist":
+        return [int(v) for v in np.round(a)]  # a list of Python integers, e.g. digitiser counts
+    return gen.as_container(spec, a)
+
+
+class _quiet(object):
+    """Library calls made outside ctx.lib (where an exception is an allowed outcome): no warnings on stderr."""
+
+    def __enter__(self):
+        import warnings
+        self._w = warnings.catch_warnings()
+        self._w.__enter__()
+        warnings.simplefilter("ignore")
+
+    def __exit__(self, *a):
+        self._w.__exit__(*a)
 
 GAIN_TOL = 2e-3        # cap
 GAIN_FLOOR = 1e-8
 GAIN_FACTOR = 40.0     # observed max of error / (u*kappa + rmax^lo) over 8000 designs on the pinned tree: 4.04
 GUARD_POLE = 1e-3      # DESIGN: |root - p| <= 1e-3 * (1 - |p|)
 GUARD_KAPPA = 2.5e-4   # added: u * kappa
-WN_LO, WN_HI, MIN_RATIO = 0.002, 0.8, 1.5
-F_MAX = 0.99           # of Nyquist
+# second tier of the matcher of C17-KF1 (added by the audit: the matcher must be as narrow as the recorded defect).  A design
+# that fails the guard but has u*kappa <= RELAX_KAPPA is still in the regime where the first-order perturbation analysis of
+# the (b, a) form holds (measured on the pinned tree, 2300 order-3/4 band-pass designs: error / (u*kappa + r_max^lo) <= 1.44 for
+# 2.5e-4 < u*kappa <= 0.1, blow-up / overflow / scipy's 'Filter not stable' only for u*kappa > 1): gain and linearity stay asserted
+# there, with the same formula as for well-conditioned designs but WITHOUT the 2e-3 cap (factor RELAX_FACTOR = 16, i.e. a margin
+# of 11 over the measurement; at RELAX_KAPPA the tolerance reaches a quarter of the amplitude, beyond that it says nothing).
+# Only designs beyond RELAX_KAPPA are reduced to length / npts / dt.
+RELAX_FACTOR = 16.0
+RELAX_KAPPA = 0.25 / RELAX_FACTOR
+# normalised cut-offs: the statement names no range ('orders 1-4, band, low or high pass'); the domain is where the analytic
+# gain is a meaningful reference for a double-precision (b, a) OR second-order-section implementation: down to 0.0006 (a 0.1 Hz
+# high-pass at 500 Hz sampling is 0.0004; at 200 Hz it is 0.001) and up to 0.95 of Nyquist
+WN_LO, WN_HI, MIN_RATIO = 0.0006, 0.95, 1.5
+F_MAX = 0.998          # of Nyquist
 GIBBS = [None, "start", "end", "mid"]
-_WN_BUCKETS = [(0.002, 0.006), (0.006, 0.02), (0.02, 0.07), (0.07, 0.25), (0.25, 0.8)]  # equal shares (Hypothesis favours the low end of a range)
+# (Hypothesis favours the low end of a range: one bucket is drawn first; the lowest bucket means records of 1e5..3e5 samples
+# and gets a smaller share through _BUCKET_PICK)
+_WN_BUCKETS = [(0.0006, 0.002), (0.002, 0.006), (0.006, 0.02), (0.02, 0.07), (0.07, 0.25), (0.25, 0.8), (0.8, 0.95)]
+_BUCKET_PICK = [0, 1, 1, 2, 2, 3, 3, 4, 4, 5, 5, 6, 6, None, None]
+_WN_SPECIALS = [WN_LO, WN_HI, 0.001, 0.002, 0.8, 0.01, 0.1, 0.9]
+# everyday designs (order, cut-offs [Hz], dt): what users of the library do with 100 / 200 / 250 Hz records
+EVERYDAY = [(4, [0.1, None], 0.005), (2, [0.1, None], 0.005), (3, [0.05, None], 0.01), (4, [None, 45.0], 0.01),
+            (4, [None, 90.0], 0.005), (2, [0.1, 25.0], 0.005), (4, [0.25, 25.0], 0.004), (1, [0.08, None], 0.004),
+            (4, [0.1, 47.0], 0.01), (3, [0.2, 95.0], 0.005)]
 CONTAINERS = ["list", "tuple", "ndarray"]
+GRANGES = [None, None, 1, 7, 50, 200, 100000]  # gibbs_range: omitted (50) | non-default, also longer than any record
+REC_AS = ["ndarray", "ndarray", "list", "readonly", "view", "negstride"]
 
 
 # ---------------------------------------------------------------------------
@@ -141,7 +231,10 @@ def _conditioning_wn(order, wn):
         amag = amag * np.abs(ez - pk)
     kappa = float(np.sum(np.abs(a)) / np.min(amag))
     ok = bool(pole_disp <= GUARD_POLE and U * kappa <= GUARD_KAPPA)
-    return {"ok": ok, "pole_disp": pole_disp, "kappa": kappa, "rmax": float(np.max(np.abs(p)))}
+    # zone 1: well conditioned (full statement); zone 2: matched by C17-KF1 but still first-order (relaxed, uncapped bound);
+    # zone 3: matched by C17-KF1, the (b, a) form has broken down (length / npts / dt only)
+    zone = 1 if ok else (2 if U * kappa <= RELAX_KAPPA else 3)
+    return {"ok": ok, "zone": zone, "pole_disp": pole_disp, "kappa": kappa, "rmax": float(np.max(np.abs(p)))}
 
 
 def conditioning(order, cut, dt):
@@ -153,12 +246,13 @@ def _validate_reference():
     dt = 0.01
     nyq = 0.5 / dt
     for order in (1, 2, 3, 4):
-        for wn in ((None, 0.3), (0.05, None), (0.02, 0.4), (0.3, 0.8), (None, 0.002), (0.002, None)):
+        for wn in ((None, 0.3), (0.05, None), (0.02, 0.4), (0.3, 0.8), (None, 0.002), (0.002, None), (None, WN_LO), (WN_LO, None),
+                   (WN_HI, None), (None, WN_HI), (0.001, 0.5), (0.6, WN_HI)):
             kind = _ftype(wn)
             w = wn[1] if kind == "low" else (wn[0] if kind == "high" else np.array(wn))
             z, p, k = butter(order, w, btype=kind, output="zpk")
             cut = [None if c is None else c * nyq for c in wn]
-            for fr in (0.001, 0.0021, 0.03, 0.2, 0.31, 0.5, 0.79, 0.95):
+            for fr in (0.0005, 0.001, 0.0021, 0.03, 0.2, 0.31, 0.5, 0.79, 0.95, 0.998):
                 e = np.exp(1j * math.pi * fr)
                 h2 = abs(k * np.prod(e - z) / np.prod(e - p)) ** 2
                 g = analytic_gain(order, cut, fr * nyq, dt)
@@ -181,16 +275,32 @@ def _cut_arg(cut, container):
     return np.array(cut, dtype=float)
 
 
-def _butter_kwargs(order, gibbs, extra, call="kw"):
+def _butter_kwargs(order, gibbs, extra, call="kw", grange=None):
+    """extra None = gibbs_extra left at its documented default (1); grange None = gibbs_range left at its default."""
     if call in ("defaults", "default-cut"):  # order 4, no Gibbs padding: the documented defaults
         return {}
     kw = {"filter_order": order}
     if gibbs is not None:
         kw["remove_gibbs"] = gibbs
-        kw["gibbs_extra"] = extra
+        if extra is not None:
+            kw["gibbs_extra"] = extra
+        if grange is not None:
+            kw["gibbs_range"] = grange
     elif call == "kw-none":
         kw["remove_gibbs"] = None
     return kw
+
+
+def _rec_arg(x, how):
+    """The record in the requested container / memory layout (all hold exactly the float64 values of x)."""
+    if how in (None, "ndarray"):
+        return x
+    return gen.as_container({"as": how}, x)
+
+
+def _min_len(order, cut):
+    """Shortest record scipy's default filtfilt edge padding accepts: n > 3 * max(len(a), len(b))."""
+    return 3 * ((2 * order + 1) if _ftype(cut) == "band" else (order + 1)) + 1
 
 
 # ---------------------------------------------------------------------------
@@ -199,15 +309,20 @@ def _butter_kwargs(order, gibbs, extra, call="kw"):
 
 @st.composite
 def _designs(draw, risky_share=12):
-    """(order, cut [Hz], dt): normalised cut-offs log-uniform on [0.002, 0.8] + the end points; one in `risky_share` designs is
-    an order-3/4 band-pass with a very low lower cut-off (the region of known finding C17-KF1)."""
+    """(order, cut [Hz], dt): normalised cut-offs log-uniform on [WN_LO, WN_HI] (bucketed) + special values; one in
+    `risky_share` designs is an order-3/4 band-pass with a very low lower cut-off (the region of known finding C17-KF1); one in 16 is
+    an everyday design (EVERYDAY)."""
+    pick = draw(st.integers(0, 15))
+    if pick == 11:
+        order, cut, dt = draw(st.sampled_from(EVERYDAY))
+        return order, list(cut), dt
     dt = draw(gen.dts(1e-4, 1.0))
     nyq = 0.5 / dt
-    edge = st.sampled_from(_WN_BUCKETS + [None]).flatmap(
-        lambda bk: st.sampled_from([WN_LO, WN_HI, 0.01, 0.1]) if bk is None else gen.log_uniform(bk[0], bk[1]))
+    edge = st.sampled_from(_BUCKET_PICK).flatmap(
+        lambda bk: st.sampled_from(_WN_SPECIALS) if bk is None else gen.log_uniform(*_WN_BUCKETS[bk]))
     if draw(st.integers(0, risky_share - 1)) == risky_share // 2:  # (Hypothesis over-samples the end points of an integer range)
         order = draw(st.sampled_from([3, 4]))
-        w1 = draw(gen.log_uniform(WN_LO, 0.012))
+        w1 = draw(gen.log_uniform(0.002, 0.012))
         w2 = w1 * draw(gen.log_uniform(MIN_RATIO, 6.0))
         wn = [w1, w2]
     else:
@@ -235,14 +350,19 @@ def _design_in_domain(order, cut, dt):
 def _design_classes(ctx, order, cut, dt):
     kind = _ftype(cut)
     ctx.cls("type=" + kind, "order=%d" % order)
-    lo = min(w for w in _wn(cut, dt) if w is not None)
-    ctx.cls("wn_lo<0.01" if lo < 0.01 else ("wn_lo<0.1" if lo < 0.1 else "wn_lo>=0.1"))
+    ws = [w for w in _wn(cut, dt) if w is not None]
+    lo = min(ws)
+    ctx.cls("wn_lo<0.002" if lo < 0.002 * (1 - 1e-9) else ("wn_lo<0.01" if lo < 0.01 else ("wn_lo<0.1" if lo < 0.1 else "wn_lo>=0.1")))
+    if max(ws) > 0.8 * (1 + 1e-9):
+        ctx.cls("wn_hi>0.8")
 
 
-def _filtered(ctx, values, dt, cut_arg, kwargs, no_cut=False, relaxed=False):
-    """Filter a copy of `values` through Signal.butter_pass; asserts length / npts / dt.  relaxed (known finding C17-KF1 only):
-    scipy refusing the ill-conditioned (b, a) design ('Filter not stable due to sum(a) == 0') is part of the finding -> None."""
-    s = ctx.lib(eqsig.Signal, values, dt)
+def _filtered(ctx, values, dt, cut_arg, kwargs, no_cut=False, relaxed=False, recv="Signal"):
+    """Filter `values` through Signal.butter_pass (or AccSignal's inherited one); asserts length / npts / dt.  relaxed (zone 3 of
+    known finding C17-KF1 only): scipy refusing the ill-conditioned (b, a) design ('Filter not stable due to sum(a) == 0') is part of
+    the finding -> None."""
+    n = len(values)
+    s = ctx.lib(eqsig.AccSignal if recv == "AccSignal" else eqsig.Signal, values, dt)
     args = () if no_cut else (cut_arg,)
     if relaxed:
         try:
@@ -255,10 +375,36 @@ def _filtered(ctx, values, dt, cut_arg, kwargs, no_cut=False, relaxed=False):
     else:
         ctx.lib(s.butter_pass, *args, **kwargs)
     out = np.asarray(s.values)
-    ctx.shape(out, (len(values),), "filtered values")
-    ctx.check(s.npts == len(values), "npts %r after filtering a record of %d samples" % (s.npts, len(values)))
+    ctx.shape(out, (n,), "filtered values")
+    ctx.check(s.npts == n, "npts %r after filtering a record of %d samples" % (s.npts, n))
     ctx.check(s.dt == dt, "dt changed by filtering: %r -> %r" % (dt, s.dt))
     return out
+
+
+def _zone(ctx, cond):
+    """Which bound applies to this design: 1 = the full statement (also in strict mode, whatever the design); 2 = matched by
+    C17-KF1, relaxed (uncapped first-order) bound; 3 = matched by C17-KF1, length / npts / dt only."""
+    if cond["ok"]:
+        return 1
+    ctx.cls("guarded")
+    if ctx.kf("C17-KF1"):
+        ctx.cls("guarded-relaxed-bound" if cond["zone"] == 2 else "guarded-length-only")
+        return cond["zone"]
+    return 1
+
+
+def _gain_tol(cond, dist, zone):
+    """Tolerance (relative to the sinusoid amplitude) `dist` samples away from the nearer end of the record.
+
+    u*kappa: first-order bound on the relative gain error caused by rounding the denominator coefficients to double precision
+    (any (b, a) implementation has it; zpk / second-order-section implementations are more accurate and pass a fortiori);
+    r_max^dist: what is left of the edge transients.  The factor 40 is ten times the largest ratio measured on the pinned tree over
+    8000 designs (4.04; 6.5 over another 1150) - it is a safety factor on a derived bound, not a fitted model; the cap 2e-3 is DESIGN's flat
+    tolerance."""
+    base = U * cond["kappa"] + cond["rmax"] ** dist
+    if zone == 2:
+        return GAIN_FLOOR + RELAX_FACTOR * base
+    return min(GAIN_TOL, GAIN_FLOOR + GAIN_FACTOR * base)
 
 
 # ---------------------------------------------------------------------------
@@ -294,8 +440,10 @@ def _gain_cases(draw):
         f = _freq_for_gain(order, cut, dt, g, draw(st.booleans()))
         fs.append(float(min(f, F_MAX * nyq)))
     case = {"order": order, "cut": cut, "dt": dt, "fs": fs, "phase": draw(st.floats(0.0, 6.2831, allow_nan=False)),
-            "amp": draw(st.sampled_from([0, 0, -3, 3])), "gibbs": gibbs, "extra": draw(st.sampled_from([1, 2])),
-            "periods": draw(st.integers(60, 90)), "container": draw(st.sampled_from(CONTAINERS)), "call": call}
+            "amp": draw(st.sampled_from([0, 0, -3, 3])), "gibbs": gibbs, "extra": draw(st.sampled_from([1, 2, None])),
+            "grange": draw(st.sampled_from(GRANGES)),
+            "periods": draw(st.integers(60, 90)), "container": draw(st.sampled_from(CONTAINERS)), "call": call,
+            "recv": draw(st.sampled_from(["Signal", "Signal", "AccSignal"])), "rec_as": draw(st.sampled_from(REC_AS))}
     if fam in (3, 9, 16, 18):
         # ambient process state + history: the call is made under a non-default numpy print state, after the same kind of
         # filter with slightly different cut-offs has been applied to another signal in the same process
@@ -330,79 +478,95 @@ def _freqs(case):
 def _sinusoid(case, f=None):
     cut, dt = case["cut"], case["dt"]
     f = _freqs(case)[0] if f is None else f
-    f_lo = min(float(c) for c in cut if c is not None)
-    n = max(150, int(math.ceil(case["periods"] / (f_lo * dt))))
+    if case.get("n"):
+        n = int(case["n"])  # mid-range enumeration: the length is the laddered size
+    else:
+        f_lo = min(float(c) for c in cut if c is not None)
+        n = max(150, int(math.ceil(case["periods"] / (f_lo * dt))))
+        if case.get("order"):
+            # 'away from the ends': the memory of the filter is set by its slowest pole, which for cut-offs near Nyquist is not
+            # tied to the cut-off period (poles approach z = -1); the middle third starts >= ln(1e-10)/ln(r_max) samples in
+            rmax = conditioning(case["order"], cut, dt)["rmax"]
+            if 0.0 < rmax < 1.0:
+                n = max(n, 3 * int(math.ceil(math.log(1e-10) / math.log(rmax))) + 3)
     i = np.arange(n, dtype=float)
     return (10.0 ** case.get("amp", 0)) * np.sin((2.0 * math.pi * f * dt) * i + case["phase"])
 
 
-@clause(CLAUSES, "butter-gain", _gain_cases(), quick=500, thorough=1600,
+@clause(CLAUSES, "butter-gain", _gain_cases(), quick=260, thorough=1600, quick_shards=2,
         rule="x = A sin(2 pi f t + phi) over 60-90 periods of the lowest cut-off; low / high / band pass, orders 1-4, normalised "
-             "cut-offs log-uniform on [0.002, 0.8] (+ end points, + the documented default call, + 1 in 12 order-3/4 band-pass "
-             "designs with a very low lower cut-off), remove_gibbs in {None,start,end,mid}, gibbs_extra in {1,2}, three "
+             "cut-offs log-uniform on [0.0006, 0.95] in seven buckets (+ special values, + the documented default call, + everyday "
+             "designs such as the 0.1 Hz high-pass at dt = 0.005, + 1 in 12 order-3/4 band-pass designs with a very low lower "
+             "cut-off), remove_gibbs in {None,start,end,mid}, gibbs_extra in {omitted,1,2}, gibbs_range in {omitted,1,7,50,200,1e5}, "
+             "receiver Signal / AccSignal, record given as ndarray / list / read-only / strided view, three "
              "sinusoids per case, f placed in the pass / transition / stop band by drawn target gains, cut-offs as list / tuple / "
              "ndarray; 1 case in 5 runs under a non-default numpy print state (precision 1-5, summarisation threshold 5, suppress) "
              "after 1-2 calls of the same filter with cut-offs perturbed by 1e-9..24% on another signal; "
-             "non-trivial = design passes the conditioning guard, so the gain is asserted",
+             "non-trivial = the gain is asserted (design well conditioned, or in the first-order zone of C17-KF1)",
         oracle="reference model: middle third == g(f) * x with g the closed-form squared magnitude of the bilinear-transformed "
                "Butterworth filter in t = tan(pi f dt) (validated at import against scipy's zpk design), tolerance "
-               "min(2e-3, 1e-8 + 40 (u kappa + r_max^(n/3))) * A; "
-               "length, npts, dt preserved; list / tuple / ndarray cut-offs give array_equal outputs; differential: the call under "
-               "the ambient print state / after similar calls == the same call under the default print state (exact)",
+               "min(2e-3, 1e-8 + 40 (u kappa + r_max^(n/3))) * A (C17-KF1, first-order zone: 1e-8 + 16 (u kappa + r_max^(n/3)), uncapped); "
+               "length, npts, dt preserved; list / tuple / ndarray cut-offs agree to 8 eps (kappa+4) A; differential: the call under "
+               "the ambient print state / after similar calls == the same call under the default print state (8 eps (kappa+4) A)",
         require={"band=pass": 0.35, "band=transition": 0.35, "band=stop": 0.35, "gibbs=None": 0.08, "gibbs=start": 0.05,
                  "gibbs=end": 0.05, "gibbs=mid": 0.05, "type=low": 0.1, "type=high": 0.1, "type=band": 0.15, "guarded": 0.01,
                  "cut=ndarray": 0.08, "cut=list": 0.08, "cut=tuple": 0.08, "order=1": 0.05, "order=2": 0.05, "order=3": 0.05,
-                 "order=4": 0.05, "call=default-cut": 0.01, "ambient-print-state": 0.08},
+                 "order=4": 0.05, "call=default-cut": 0.01, "ambient-print-state": 0.08, "wn_lo<0.002": 0.02, "wn_hi>0.8": 0.04,
+                 "recv=AccSignal": 0.1, "grange!=default": 0.1, "extra=default": 0.05},
         min_nontrivial=0.6)
 def butter_gain(case, ctx):
     order, cut, dt = case["order"], case["cut"], case["dt"]
     freqs = _freqs(case)
     gibbs, extra, call = case.get("gibbs"), case.get("extra", 1), case.get("call", "kw")
+    grange, recv, rec_as = case.get("grange"), case.get("recv", "Signal"), case.get("rec_as", "ndarray")
     nyq = 0.5 / dt
     if not (_design_in_domain(order, cut, dt) and all(0 < f <= F_MAX * nyq * (1 + 1e-9) for f in freqs)):
         raise ValueError("case outside the domain of clause butter-gain")
     amp = 10.0 ** case.get("amp", 0)
     _design_classes(ctx, order, cut, dt)
-    ctx.cls("gibbs=%s" % gibbs, "cut=" + case["container"], "call=" + call)
+    ctx.cls("gibbs=%s" % gibbs, "cut=" + case["container"], "call=" + call, "recv=" + recv, "rec=" + rec_as)
     if gibbs is not None:
-        ctx.cls("extra=%d" % extra)
-    kwargs = _butter_kwargs(order, gibbs, extra, call)
+        ctx.cls("extra=%s" % ("default" if extra is None else extra), "grange!=default" if grange is not None else "grange=default")
+    kwargs = _butter_kwargs(order, gibbs, extra, call, grange)
     no_cut = call == "default-cut"
     cut_arg = _cut_arg(cut, case["container"])
     cond = conditioning(order, cut, dt)
     ctx.notes["u*kappa"] = U * cond["kappa"]
-    if not cond["ok"]:
-        ctx.cls("guarded")
-        if ctx.kf("C17-KF1"):
-            # known finding: (b, a) form ill-conditioned for this design; only length / npts / dt (asserted inside _filtered)
-            _filtered(ctx, _sinusoid(case), dt, cut_arg, kwargs, no_cut=no_cut, relaxed=True)
-            return
-    else:
-        ctx.nt()
+    zone = _zone(ctx, cond)
+    if zone == 3:
+        # known finding: the (b, a) form has broken down for this design; only length / npts / dt (asserted inside _filtered)
+        _filtered(ctx, _rec_arg(_sinusoid(case), rec_as), dt, cut_arg, kwargs, no_cut=no_cut, relaxed=True, recv=recv)
+        return
+    ctx.nt()
     amb = case.get("ambient")
     if amb:
         ctx.cls("ambient-print-state")
+    # two spellings / two process states of the same request: 'identical output' is demanded to rounding only (an
+    # implementation may evaluate an array-valued and a tuple-valued cut-off in a different but equivalent order); the bound is
+    # the one of the linearity clause (rounding errors of relative size eps per sample amplified by the peak gain of 1/A)
+    tol_same = 8 * EPS * (cond["kappa"] + 4) * amp
     for k, f in enumerate(freqs):
         x = _sinusoid(case, f)
+        xa = _rec_arg(x, rec_as)
         n = len(x)
         g = analytic_gain(order, cut, f, dt)
         ctx.cls("band=pass" if g >= 0.9 else ("band=stop" if g <= 0.01 else "band=transition"))
         if amb:
             with np.printoptions(precision=amb["precision"], threshold=amb["threshold"], suppress=amb["suppress"]):
                 if k == 0:
-                    _prime(case, dt, _butter_kwargs(order, gibbs, extra, "kw"))
-                y = _filtered(ctx, x, dt, cut_arg, kwargs, no_cut=no_cut)
+                    _prime(case, dt, _butter_kwargs(order, gibbs, extra, "kw", grange))
+                y = _filtered(ctx, xa, dt, cut_arg, kwargs, no_cut=no_cut, recv=recv)
             # what numpy prints, and what was filtered before, is no input of the filter
-            y_plain = _filtered(ctx, x, dt, cut_arg, kwargs, no_cut=no_cut)
-            ctx.equal(y, y_plain, "the same butter_pass call under numpy print options %r after %d similar call(s) vs under the "
-                                  "default print state" % ({k_: amb[k_] for k_ in ("precision", "threshold", "suppress")}, len(amb["prime"])))
+            y_plain = _filtered(ctx, xa, dt, cut_arg, kwargs, no_cut=no_cut, recv=recv)
+            ctx.close(y, y_plain, tol_same, "the same butter_pass call under numpy print options %r after %d similar call(s) vs under the "
+                                            "default print state" % ({k_: amb[k_] for k_ in ("precision", "threshold", "suppress")}, len(amb["prime"])))
         else:
-            y = _filtered(ctx, x, dt, cut_arg, kwargs, no_cut=no_cut)
+            y = _filtered(ctx, xa, dt, cut_arg, kwargs, no_cut=no_cut, recv=recv)
         lo, hi = n // 3, (2 * n) // 3
         ctx.finite(y[lo:hi], "filtered sinusoid (middle third)")
         # design-aware tolerance: rounding of the (b, a) coefficients (first-order bound u*kappa) + what is left of the edge
-        # transients after lo = n/3 samples (slowest pole radius ^ lo); never looser than the flat 2e-3
-        tol_gain = min(GAIN_TOL, GAIN_FLOOR + GAIN_FACTOR * (U * cond["kappa"] + cond["rmax"] ** lo))
+        # transients after lo = n/3 samples (slowest pole radius ^ lo); never looser than the flat 2e-3 for a well-conditioned design
+        tol_gain = _gain_tol(cond, lo, zone)
         ctx.notes["tol_gain"] = tol_gain
         ctx.cls("tol<1e-6" if tol_gain < 1e-6 else ("tol<1e-4" if tol_gain < 1e-4 else "tol>=1e-4"))
         ctx.close(y[lo:hi], g * x[lo:hi], tol_gain * amp,
@@ -414,8 +578,8 @@ def butter_gain(case, ctx):
         for cont in CONTAINERS:
             if cont == case["container"] and not no_cut:
                 continue
-            y2 = _filtered(ctx, x, dt, _cut_arg(cut, cont), _butter_kwargs(order, gibbs, extra, "kw"))
-            ctx.equal(y2, y, "cut-offs given as %s vs %s" % (cont, "the default argument" if no_cut else case["container"]))
+            y2 = _filtered(ctx, xa, dt, _cut_arg(cut, cont), _butter_kwargs(order, gibbs, extra, "kw", grange), recv=recv)
+            ctx.close(y2, y, tol_same, "cut-offs given as %s vs %s" % (cont, "the default argument" if no_cut else case["container"]))
 
 
 # ---------------------------------------------------------------------------
@@ -427,57 +591,71 @@ RECIPE_KINDS = ["noise", "sines", "pulse", "step", "walk", "const", "quake"]
 @st.composite
 def _linear_cases(draw):
     order, cut, dt = draw(_designs(risky_share=30))
-    n = draw(st.one_of(st.integers(32, 64), st.integers(32, 400), st.integers(32, 3000)))
+    nmin = _min_len(order, cut)
+    n = draw(st.one_of(st.integers(nmin, nmin + 12), st.integers(nmin, 64), st.integers(32, 400), st.integers(32, 3000)))
     kinds = None if n <= 64 else RECIPE_KINDS
-    ra = draw(gen.record_specs(min_n=n, max_n=n, small_max=n, kinds=kinds, allow_zero_runs=False))
-    rb = draw(gen.record_specs(min_n=n, max_n=n, small_max=n, kinds=kinds, allow_zero_runs=False))
+    ra = draw(gen.record_specs(min_n=n, max_n=n, small_max=n, kinds=kinds, allow_zero_runs=False, allow_int=True))
+    rb = draw(gen.record_specs(min_n=n, max_n=n, small_max=n, kinds=kinds, allow_zero_runs=False, allow_int=True))
+    for sp in (ra, rb):
+        if sp.get("as") == "int" and "amp" in sp and sp["amp"] < 1:
+            sp["amp"] = min(6, 1 - sp["amp"])  # keep the rounded record non-zero
     return {"order": order, "cut": cut, "dt": dt, "ra": ra, "rb": rb, "alpha": draw(gen.scalars()), "beta": draw(gen.scalars()),
-            "extra": draw(st.sampled_from([1, 2])), "container": draw(st.sampled_from(CONTAINERS))}
+            "extra": draw(st.sampled_from([1, 2, None])), "grange": draw(st.sampled_from(GRANGES)),
+            "container": draw(st.sampled_from(CONTAINERS)), "recv": draw(st.sampled_from(["Signal", "Signal", "AccSignal"]))}
 
 
 @clause(CLAUSES, "butter-linear", _linear_cases(), quick=200, thorough=800,
-        rule="pairs of records of all kinds with equal length 32..3000, alpha / beta signed log-uniform on [1e-3,1e3] or powers of "
+        rule="pairs of records of all kinds (float64 / int64 / list / views) with equal length, from the shortest scipy's edge padding "
+             "accepts (3*max(len a, len b)+1 = 7..28) to 3000, alpha / beta signed log-uniform on [1e-3,1e3] or powers of "
              "two, designs as in butter-gain, every case filtered with each of remove_gibbs in {None,start,end,mid}, gibbs_extra "
-             "in {1,2}; non-trivial = both records non-zero and the design passes the conditioning guard",
+             "in {omitted,1,2}, gibbs_range in {omitted,1,7,50,200,1e5}, receiver Signal / AccSignal; non-trivial = both records "
+             "non-zero and linearity is asserted (design well conditioned or in the first-order zone of C17-KF1)",
         oracle="metamorphic: filter(alpha x + beta y) == alpha filter(x) + beta filter(y) within 16 eps (kappa+4) (|alpha| max|x| + "
                "|beta| max|y|), kappa = conditioning of the (b, a) denominator; length / npts / dt preserved; inputs not modified",
-        require={"extra=2": 0.1, "type=band": 0.1, "type=low": 0.1, "type=high": 0.1},
+        require={"extra=2": 0.1, "type=band": 0.1, "type=low": 0.1, "type=high": 0.1, "n<32": 0.08, "grange!=default": 0.2,
+                 "recv=AccSignal": 0.1},
         min_nontrivial=0.5)
 def butter_linear(case, ctx):
     order, cut, dt = case["order"], case["cut"], case["dt"]
-    extra = case.get("extra", 1)
-    x = gen.build(case["ra"])
-    y = gen.build(case["rb"])
-    if len(x) != len(y) or len(x) < 32 or not _design_in_domain(order, cut, dt):
+    extra, grange, recv = case.get("extra", 1), case.get("grange"), case.get("recv", "Signal")
+    ax = _container(case["ra"], _build(case["ra"]))
+    ay = _container(case["rb"], _build(case["rb"]))
+    x = np.array(ax, dtype=float)  # what the library sees (the integer variant rounds)
+    y = np.array(ay, dtype=float)
+    if len(x) != len(y) or len(x) < _min_len(order, cut) or not _design_in_domain(order, cut, dt):
         raise ValueError("case outside the domain of clause butter-linear")
     al, be = float(case["alpha"]), float(case["beta"])
     _design_classes(ctx, order, cut, dt)
-    ctx.cls("extra=%d" % extra, gen.size_class(len(x)), "kind=" + case["ra"]["k"], "cut=" + case.get("container", "tuple"))
+    ctx.cls("extra=%s" % ("default" if extra is None else extra), "grange!=default" if grange is not None else "grange=default",
+            gen.size_class(len(x)), "n<32" if len(x) < 32 else None, "kind=" + case["ra"]["k"],
+            "cut=" + case.get("container", "tuple"), "recv=" + recv)
+    for sp in (case["ra"], case["rb"]):
+        if sp.get("as"):
+            ctx.cls("as=" + sp["as"])
     cut_arg = _cut_arg(cut, case.get("container", "tuple"))
-    x0, y0 = x.copy(), y.copy()
+    ax0, ay0 = np.array(ax), np.array(ay)
     comb = al * x + be * y
     cond = conditioning(order, cut, dt)
-    relaxed = False
-    if not cond["ok"]:
-        ctx.cls("guarded")
-        relaxed = ctx.kf("C17-KF1")
+    zone = _zone(ctx, cond)
     scale = abs(al) * float(np.max(np.abs(x))) + abs(be) * float(np.max(np.abs(y)))
-    ctx.nt(bool(cond["ok"] and np.any(x != 0) and np.any(y != 0)))
+    ctx.nt(bool(zone != 3 and np.any(x != 0) and np.any(y != 0)))
     for gibbs in case.get("modes", GIBBS):
-        kwargs = _butter_kwargs(order, gibbs, extra)
-        if relaxed:  # known finding: only length / npts / dt (asserted inside _filtered)
-            for rec in (x, y, comb):
-                _filtered(ctx, rec, dt, cut_arg, kwargs, relaxed=True)
+        kwargs = _butter_kwargs(order, gibbs, extra, "kw", grange)
+        if zone == 3:  # known finding: only length / npts / dt (asserted inside _filtered)
+            for rec in (ax, ay, comb):
+                _filtered(ctx, rec, dt, cut_arg, kwargs, relaxed=True, recv=recv)
             continue
-        fx = _filtered(ctx, x, dt, cut_arg, kwargs)
-        fy = _filtered(ctx, y, dt, cut_arg, kwargs)
-        fc = _filtered(ctx, comb, dt, cut_arg, kwargs)
+        fx = _filtered(ctx, ax, dt, cut_arg, kwargs, recv=recv)
+        fy = _filtered(ctx, ay, dt, cut_arg, kwargs, recv=recv)
+        fc = _filtered(ctx, comb, dt, cut_arg, kwargs, recv=recv)
         ctx.finite(fc, "filtered combination")
+        # rounding errors of relative size eps injected per sample are amplified by at most the peak gain of 1/A (= kappa up to
+        # sum|a_k| <= 2^(2 order)); a bound on any direct-form implementation, 8 times the largest ratio measured
         ctx.close(fc, al * fx + be * fy, 16 * EPS * (cond["kappa"] + 4) * scale,
                   "filter(alpha x + beta y) vs alpha filter(x) + beta filter(y) (order %d, cut-offs %r Hz, dt=%r, remove_gibbs=%r, "
-                  "gibbs_extra=%d, u*kappa=%.2e)" % (order, cut, dt, gibbs, extra, U * cond["kappa"]))
-    ctx.equal(x, x0, "record modified by Signal(...).butter_pass")
-    ctx.equal(y, y0, "record modified by Signal(...).butter_pass")
+                  "gibbs_extra=%r, gibbs_range=%r, u*kappa=%.2e)" % (order, cut, dt, gibbs, extra, grange, U * cond["kappa"]))
+    ctx.equal(np.array(ax), ax0, "record modified by Signal(...).butter_pass")
+    ctx.equal(np.array(ay), ay0, "record modified by Signal(...).butter_pass")
 
 
 # ---------------------------------------------------------------------------
@@ -498,55 +676,72 @@ def _project(q, v):
 @st.composite
 def _detrend_cases(draw):
     k = draw(st.integers(0, 4))
-    if draw(st.integers(0, 24)) == 0:
+    fam = draw(st.integers(0, 24))
+    if fam == 0:
         # very long records (several minutes at 100-500 Hz): sizes at which index**k leaves the 53 / 63-bit integer range
         k = draw(st.sampled_from([3, 4, 4, 4]))
         spec = draw(gen.record_specs(min_n=52000, max_n=130000, kinds=["noise", "sines", "walk", "quake"], allow_zero_runs=False))
+    elif fam in (1, 2, 3):
+        # the shortest records a degree-k fit is determined on: n = k+1 (the fit interpolates: nothing is left), k+2, k+3
+        n = k + draw(st.integers(1, 3))
+        spec = draw(gen.record_specs(min_n=n, max_n=n, small_max=n, kinds=["vals", "dyadic", "noise", "walk"], allow_zero_runs=False,
+                                     allow_int=True))
     else:
         spec = draw(gen.record_specs(min_n=k + 4, max_n=5000, allow_int=True))
     n = len(gen.build(spec))
-    sec_kind = draw(st.sampled_from(["default", "pos", "neg"]))
+    sec_kind = draw(st.sampled_from(["default", "pos", "neg", "pos"])) if n >= 2 else "pos"
     if sec_kind == "pos":
-        section = draw(st.integers(1, n))
+        section = draw(st.one_of(st.integers(1, n), st.just(n)))
     elif sec_kind == "neg":
         section = -draw(st.integers(1, n - 1))
     else:
         section = None  # call without the argument (documented default -1)
     return {"rec": spec, "k": k, "dt": draw(gen.dts(1e-4, 1.0)),
             "coef": draw(st.lists(st.floats(-100, 100, allow_nan=False), min_size=k + 1, max_size=k + 1)),
-            "form": draw(st.sampled_from(["kw", "pos"])), "section": section}
+            "form": draw(st.sampled_from(["kw", "pos"] + (["default", "default"] if k == 0 else []))), "section": section,
+            "recv": draw(st.sampled_from(["Signal", "Signal", "AccSignal"]))}
 
 
 @clause(CLAUSES, "detrend", _detrend_cases(), quick=400, thorough=1600,
-        rule="records of all kinds (n k+4..5000; float, integer-dtype and list containers), degree k in 0..4, a polynomial of degree "
-             "<= k with coefficients U(-100,100)*max|record| in the Legendre-scaled index, keyword / positional call forms, "
-             "remove_average with the default / a positive / a negative section; "
+        rule="records of all kinds (n k+1..5000, 1 in 25 with 52000..130000; float, integer-dtype and list containers, strided / "
+             "read-only views), degree k in 0..4, a polynomial of degree <= k with coefficients U(-100,100)*max|record| in the "
+             "Legendre-scaled index, keyword / positional call forms and (k = 0) the call without argument, receiver Signal / "
+             "AccSignal; remove_average with the default / a positive / a negative section; "
              "non-trivial = the record is not itself a polynomial of degree <= k (residual > 1e-6 max|record|)",
         oracle="reference model (orthonormal polynomial basis on the sample grid, QR): removed part r = x - out has r - P_k r == 0 and "
                "a vanishing (k+1)-th finite difference; P_k out == 0; remove_poly(out) == out; remove_poly(x + p) == out; "
-               "Signal.remove_poly == fns.remove_poly (all 1e-8 max|.|); remove_average subtracts mean(x[:section]) ((n+8) eps max|x|)",
-        require={"k=0": 0.03, "k=1": 0.03, "k=2": 0.03, "k=3": 0.03, "k=4": 0.03, "n>512": 0.05, "n>50000": 0.01}, min_nontrivial=0.5)
+               "Signal.remove_poly == fns.remove_poly (all 1e-8 max|.|); remove_average subtracts ONE constant, the mean of the first "
+               "`section` samples for a positive section ((n+8) eps max|x|), the mean of the record or of values[:section] otherwise",
+        require={"k=0": 0.03, "k=1": 0.03, "k=2": 0.03, "k=3": 0.03, "k=4": 0.03, "n>512": 0.05, "n>50000": 0.01, "n<k+4": 0.04,
+                 "recv=AccSignal": 0.1, "form=default": 0.01}, min_nontrivial=0.5)
 def detrend(case, ctx):
     spec = case["rec"]
     k = int(case["k"])
     dt = case["dt"]
-    arg = gen.as_container(spec, gen.build(spec))
+    arg = _container(spec, _build(spec))
     x = np.array(arg, dtype=float)  # what the library sees (the integer variant rounds)
     n = len(x)
-    if not (0 <= k <= 4 and n >= k + 4):
+    if not (0 <= k <= 4 and n >= k + 1):
         raise ValueError("case outside the domain of clause detrend")
     scale = float(np.max(np.abs(x)))
     tol = 1e-8 * scale
-    ctx.cls("k=%d" % k, "kind=" + spec["k"], gen.size_class(n), "n>50000" if n > 50000 else None)
+    recv = case.get("recv", "Signal")
+    make = eqsig.AccSignal if recv == "AccSignal" else eqsig.Signal
+    form = case.get("form", "kw")
+    if form == "default" and k != 0:
+        raise ValueError("case outside the domain of clause detrend (the default degree is 0)")
+    ctx.cls("k=%d" % k, "kind=" + spec["k"], gen.size_class(n), "n>50000" if n > 50000 else None, "n<k+4" if n < k + 4 else None,
+            "recv=" + recv, "form=" + form)
     if spec.get("as"):
         ctx.cls("as=" + spec["as"])
     q = _poly_basis(n, k)
-    positional = case.get("form") == "pos"
 
     def obj_level(values):
-        s = ctx.lib(eqsig.Signal, values, dt)
-        if positional:
+        s = ctx.lib(make, values, dt)
+        if form == "pos":
             ctx.lib(s.remove_poly, k)
+        elif form == "default":
+            ctx.lib(s.remove_poly)
         else:
             ctx.lib(s.remove_poly, poly_fit=k)
         out = np.asarray(s.values)
@@ -555,8 +750,9 @@ def detrend(case, ctx):
         return out
 
     def arr_level(values):
-        out = np.asarray(ctx.lib(fns_generic.remove_poly, values, k) if positional
-                         else ctx.lib(fns_generic.remove_poly, values, poly_fit=k))
+        out = np.asarray(ctx.lib(fns_generic.remove_poly, values, k) if form == "pos"
+                         else (ctx.lib(fns_generic.remove_poly, values) if form == "default"
+                               else ctx.lib(fns_generic.remove_poly, values, poly_fit=k)))
         ctx.shape(out, (n,), "fns.remove_poly result")
         return out
 
@@ -582,9 +778,12 @@ def detrend(case, ctx):
     tol_p = 1e-8 * max(scale, float(np.max(np.abs(p))))
     ctx.close(obj_level(x + p), out_o, tol_p, "Signal.remove_poly(k=%d) after adding a polynomial of degree <= %d" % (k, k))
     ctx.close(arr_level(x + p), out_a, tol_p, "fns.remove_poly(k=%d) after adding a polynomial of degree <= %d" % (k, k))
-    # remove_average = degree 0 on the chosen section
+    # remove_average: the statement's degree-0 claim applied to it - exactly ONE constant is subtracted - and, where the caller
+    # names a positive number of samples, that constant is their mean.  WHICH samples the default section / a negative section
+    # means is a convention of the implementation (the present code drops the last sample by default): the mean of the whole
+    # record and the mean of values[:section] are both accepted there.
     section = case.get("section")
-    s = ctx.lib(eqsig.Signal, arg, dt)
+    s = ctx.lib(make, arg, dt)
     if section is None:
         ctx.lib(s.remove_average)
         sl = slice(None, -1)
@@ -593,12 +792,22 @@ def detrend(case, ctx):
         sl = slice(None, section)
     out = np.asarray(s.values)
     ctx.shape(out, (n,), "remove_average values")
+    ctx.check(s.npts == n and s.dt == dt, "npts / dt changed by remove_average: %r, %r" % (s.npts, s.dt))
     part = x[sl]
     if len(part) == 0:
         raise ValueError("case outside the domain of clause detrend (empty section)")
-    mean = float(np.sum(part.astype(LD)) / len(part))
-    ctx.close(out, x - mean, (n + 8) * EPS * scale,
-              "remove_average(%s) vs x - mean(x[:section])" % ("default section=-1" if section is None else "section=%d" % section))
+    what = "default section" if section is None else "section=%d" % section
+    tol_a = (n + 8) * EPS * scale
+    mean_sec = float(np.sum(part.astype(LD)) / len(part))
+    if section is not None and section > 0:
+        ctx.close(out, x - mean_sec, tol_a, "remove_average(%s) vs x - mean of the first %d samples" % (what, section))
+    else:
+        mean_all = float(np.sum(x.astype(LD)) / n)
+        d_sec = float(np.max(np.abs((out - (x - mean_sec)).astype(LD))))
+        d_all = float(np.max(np.abs((out - (x - mean_all)).astype(LD))))
+        ctx.check(min(d_sec, d_all) <= tol_a,
+                  "remove_average(%s): result is neither x - mean(x) (off by %.3g) nor x - mean(x[:section]) (off by %.3g), tol %.3g" % (
+                      what, d_all, d_sec, tol_a))
 
 
 # very long records (continuous monitoring, hours at 100-500 Hz): lengths around 2^21 and 2^22
@@ -675,7 +884,10 @@ def _add_cases(draw):
     else:
         case["cls"] = draw(st.sampled_from(["Signal", "AccSignal"]))
         how = draw(st.sampled_from(["ok", "dt", "non", "ok", "dt", "non"]))
-        case["dtf"] = draw(st.sampled_from([0.5, 2.0, 1.001, 0.999, 1.1, 10.0])) if how == "dt" else 1.0
+        # mismatched time steps: grossly (x 0.5 .. 10) or nearly equal (relative difference 1e-12 .. 1e-3, either sign: two
+        # records "both at 200 Hz" whose time steps were computed differently)
+        near = st.tuples(st.sampled_from([-1.0, 1.0]), gen.log_uniform(1e-12, 1e-3)).map(lambda t: 1.0 + t[0] * t[1])
+        case["dtf"] = draw(st.one_of(st.sampled_from([0.5, 2.0, 1.001, 0.999, 1.1, 10.0]), near, near)) if how == "dt" else 1.0
         case["non"] = draw(st.sampled_from(_NON_SIGNALS)) if how == "non" else None
     return case
 
@@ -683,17 +895,18 @@ def _add_cases(draw):
 @clause(CLAUSES, "add", _add_cases(), quick=400, thorough=1600,
         rule="records of all kinds (n 2..2000; float / integer-dtype / list) in a Signal or AccSignal; add_constant (float / int), "
              "add_series (ndarray / list / tuple; right length, or off by +-1, empty, any other length), add_signal (Signal / "
-             "AccSignal with equal dt, with dt scaled by {.5,2,1.001,.999,1.1,10}, wrong length, or a non-Signal: None, ndarray, "
-             "list, float, dict, duck-typed object); non-trivial = the added values are not all zero or the call must be rejected",
-        oracle="reference model: element-wise Python additions (==); SignalProcessingError for wrong length / dt / type with the "
-               "signal left unchanged; npts and dt preserved, the added object not modified",
+             "AccSignal with equal dt, with dt scaled by {.5,2,1.001,.999,1.1,10} or by 1 +- 1e-12..1e-3, wrong length, or a non-Signal: "
+             "None, ndarray, list, float, dict, duck-typed object); non-trivial = the added values are not all zero or the call must be rejected",
+        oracle="reference model: element-wise Python additions (==); mismatched length / time step: some exception is raised and the "
+               "signal is left unchanged; a non-Signal argument is either rejected the same way or (an object / sequence that does "
+               "carry matching values) added element-wise; npts and dt preserved, the added object not modified",
         require={"op=constant": 0.05, "op=series": 0.1, "op=signal": 0.2, "reject-length": 0.08, "reject-dt": 0.03,
-                 "reject-type": 0.03, "accepted": 0.2},
+                 "reject-dt-near": 0.01, "non-signal": 0.03, "accepted": 0.2},
         min_nontrivial=0.5)
 def add(case, ctx):
     spec = case["rec"]
     dt = case["dt"]
-    arg = gen.as_container(spec, gen.build(spec))
+    arg = _container(spec, _build(spec))
     x = np.array(arg)
     n = len(x)
     op = case["op"]
@@ -717,6 +930,17 @@ def add(case, ctx):
         ctx.equal(out, np.array(expect), "values after %s vs element-wise sum" % what)
         ctx.check(s.npts == n and s.dt == dt, "npts / dt changed by %s: %r, %r" % (what, s.npts, s.dt))
 
+    def rejected(fn, arg_, what):
+        # 'rejects': the statement names no exception class (the present code raises SignalProcessingError; numpy's own
+        # ValueError for operands that cannot be added is a rejection just as well)
+        try:
+            fn(arg_)
+        except Exception as e:  # noqa
+            ctx.cls("raises=" + type(e).__name__)
+            unchanged(what)
+            return
+        ctx.fail("%s was accepted (values now %s)" % (what, _short(s.values)))
+
     if op == "constant":
         c = case["c"]
         ctx.nt(c != 0)
@@ -727,7 +951,7 @@ def add(case, ctx):
     m = n + dlen
     if m < 0:
         raise ValueError("case outside the domain of clause add")
-    o = np.resize(gen.build(case["other"]), m) if m > 0 else np.zeros(0)
+    o = np.resize(_build(case["other"]), m) if m > 0 else np.zeros(0)
     os_ = o.tolist()
     if op == "series":
         how = case.get("as", "ndarray")
@@ -736,8 +960,7 @@ def add(case, ctx):
         if dlen != 0:
             ctx.cls("reject-length")
             ctx.nt()
-            ctx.raises(eq_exc.SignalProcessingError, s.add_series, ser)
-            unchanged("add_series (length %d vs %d)" % (m, n))
+            rejected(s.add_series, ser, "add_series (length %d vs %d)" % (m, n))
         else:
             ctx.nt(bool(np.any(o != 0)))
             ctx.lib(s.add_series, ser)
@@ -750,23 +973,37 @@ def add(case, ctx):
     if non is not None:
         other = {"none": None, "ndarray": o.copy(), "list": list(os_), "float": 1.5, "dict": {"values": list(os_), "dt": dt},
                  "duck": _Duck(o.copy(), dt)}[non]
-        ctx.cls("reject-type", "non=" + non)
+        ctx.cls("non-signal", "non=" + non)
         ctx.nt()
-        ctx.raises(eq_exc.SignalProcessingError, s.add_signal, other)
-        unchanged("add_signal(%s)" % non)
-        return
+        # not a Signal: the statement promises nothing but the element-wise sum and the two rejections.  An implementation may
+        # refuse the object (the present one does) or, if the object does carry a matching series (duck-typed object, bare
+        # sequence of the right length), add it element-wise; anything else (a changed signal after None / a number / a dict, a
+        # series of the wrong length added) breaks 'adds element-wise'.
+        try:
+            with _quiet():
+                s.add_signal(other)
+        except Exception as e:  # noqa
+            ctx.cls("reject-type", "raises=" + type(e).__name__)
+            unchanged("add_signal(%s)" % non)
+            return
+        if non in ("duck", "ndarray", "list") and dlen == 0:
+            added([a + b for a, b in zip(xs, os_)], "add_signal(%s) [accepted]" % non)
+            return
+        ctx.fail("add_signal(%s%s) was accepted (values now %s)" % (non, "" if dlen == 0 else ", length %d vs %d" % (m, n), _short(s.values)))
     if m < 1:
         m, o, os_ = 1, np.zeros(1), [0.0]  # a Signal needs at least one sample
         dlen = m - n
     make_o = eqsig.AccSignal if case.get("cls") == "AccSignal" else eqsig.Signal
     dt2 = dt * dtf
+    if dtf != 1.0 and dt2 == dt:
+        raise ValueError("case outside the domain of clause add (the scaled time step rounds to the same number)")
     other = ctx.lib(make_o, o.copy(), dt2)
     ctx.cls("other=" + case.get("cls", "Signal"))
     if dtf != 1.0 or dlen != 0:
-        ctx.cls("reject-dt" if dtf != 1.0 else None, "reject-length" if dlen != 0 else None)
+        ctx.cls("reject-dt" if dtf != 1.0 else None, "reject-length" if dlen != 0 else None,
+                "reject-dt-near" if dtf != 1.0 and abs(dtf - 1.0) < 9e-4 else None)
         ctx.nt()
-        ctx.raises(eq_exc.SignalProcessingError, s.add_signal, other)
-        unchanged("add_signal (dt %r vs %r, length %d vs %d)" % (dt2, dt, m, n))
+        rejected(s.add_signal, other, "add_signal (dt %r vs %r, length %d vs %d)" % (dt2, dt, m, n))
     else:
         ctx.nt(bool(np.any(o != 0)))
         ctx.lib(s.add_signal, other)
@@ -779,58 +1016,443 @@ def add(case, ctx):
 # clause 5: running average
 
 
+def _avg_reference(x, h):
+    """Mean of the ORIGINAL samples j with |j-i| <= h, 0 <= j < n, in long double (explicit loop for short records, long-double
+    prefix sums otherwise: error <= n * 2^-64 * max|prefix sum|), and a per-sample tolerance that any reasonable double-precision
+    implementation meets: a direct mean of <= 2h+1 terms errs by <= (2h+2) eps max|x|; a prefix-sum implementation (like
+    fns.average.calc_roll_av_vals) adds one rounding of relative size eps/2 per accumulated sample to a running sum S, i.e.
+    <= n eps max|S| on a difference of two prefix sums, divided by the number of samples in the window."""
+    n = len(x)
+    xl = x.astype(LD)
+    csum = np.concatenate([[LD(0)], np.cumsum(xl)])
+    i = np.arange(n)
+    lo, hi = np.maximum(0, i - h), np.minimum(n - 1, i + h)
+    cnt = (hi - lo + 1)
+    if n <= 400:
+        expect = np.empty(n, dtype=LD)
+        for ii in range(n):
+            tot = LD(0)
+            for j in range(lo[ii], hi[ii] + 1):
+                tot += xl[j]
+            expect[ii] = tot / cnt[ii]
+    else:
+        expect = (csum[hi + 1] - csum[lo]) / cnt.astype(LD)
+    smax = float(np.max(np.abs(csum)))
+    xmax = float(np.max(np.abs(x)))
+    tol = (2 * h + 8) * EPS * xmax + n * EPS * smax / cnt
+    return expect, tol
+
+
+_AVG_AS = ["int", "intlist", "int", "intlist", "list", "view", "negstride", "readonly"]
+
+
 @st.composite
 def _avg_cases(draw):
-    spec = draw(gen.record_specs(min_n=2, max_n=3000, small_max=60, allow_int=False))
+    spec = draw(gen.record_specs(min_n=2, max_n=3000, small_max=60, allow_int=_AVG_AS))
+    if spec.get("as") in ("int", "intlist") and "amp" in spec and spec["amp"] < 1:
+        spec["amp"] = min(6, 1 - spec["amp"])  # keep the rounded record non-zero
     w = draw(st.one_of(st.integers(1, 25), st.integers(3, 25), st.sampled_from([1, 2, 3, 4, 5, 24, 25])))
-    return {"rec": spec, "dt": draw(gen.dts(1e-4, 1.0)), "w": w, "form": draw(st.sampled_from(["kw", "pos"])),
+    form = draw(st.sampled_from(["kw", "pos"] + (["default", "default"] if w == 1 else [])))
+    return {"rec": spec, "dt": draw(gen.dts(1e-4, 1.0)), "w": w, "form": form,
             "self": draw(st.sampled_from(["Signal", "AccSignal"]))}
 
 
 @clause(CLAUSES, "running-average", _avg_cases(), quick=400, thorough=1600,
-        rule="float records of all kinds (n 2..3000), width 1..25 (odd and even, also wider than the record), Signal / AccSignal, "
-             "keyword / positional call; non-trivial = floor(w/2) >= 1 and the record is not constant",
+        rule="records of all kinds (n 2..3000; float64, and one in four as int64 array, list of Python ints, list of floats, strided / "
+             "read-only view), width 1..25 (odd and even, also wider than the record; width 1 also as the call without argument), "
+             "Signal / AccSignal, keyword / positional call; non-trivial = floor(w/2) >= 1 and the record is not constant",
         oracle="reference model: loop over i, long-double mean of the ORIGINAL samples j with |j-i| <= floor(w/2), 0 <= j < n; "
-               "tolerance 1e-12 max|record|; length, npts, dt preserved; the caller's array untouched",
-        require={"w>=3": 0.4, "w=1": 0.02, "w=2": 0.02, "w>n": 0.01, "even-w": 0.1, "n>64": 0.15},
+               "tolerance (w+8) eps max|x| + n eps max|prefix sum| / window count (covers direct-mean and prefix-sum "
+               "implementations); length, npts, dt preserved; the caller's record untouched",
+        require={"w>=3": 0.4, "w=1": 0.02, "w=2": 0.02, "w>n": 0.01, "even-w": 0.1, "n>64": 0.15, "integer-record": 0.05},
         min_nontrivial=0.5)
 def running_average(case, ctx):
     spec = case["rec"]
-    x = gen.build(spec)
+    arg = _container(spec, _build(spec))
+    x = np.array(arg, dtype=float)  # the record as numbers (integer variants are rounded)
     n = len(x)
     w = int(case["w"])
     dt = case["dt"]
-    if not (1 <= w <= 25 and n >= 2):
+    form = case.get("form", "kw")
+    if not (1 <= w <= 25 and n >= 2) or (form == "default" and w != 1):
         raise ValueError("case outside the domain of clause running-average")
     h = w // 2
     ctx.cls("w=1" if w == 1 else ("w=2" if w == 2 else "w>=3"), "even-w" if w % 2 == 0 else "odd-w", "kind=" + spec["k"],
-            gen.size_class(n), "n>64" if n > 64 else None, "w>n" if w > n else None)
+            gen.size_class(n), "n>64" if n > 64 else None, "w>n" if w > n else None, "form=" + form)
+    if spec.get("as"):
+        ctx.cls("as=" + spec["as"], "integer-record" if spec["as"] in ("int", "intlist") else None)
     ctx.nt(bool(h >= 1 and np.any(x != x[0])))
     make = eqsig.AccSignal if case.get("self") == "AccSignal" else eqsig.Signal
-    x0 = x.copy()
-    s = ctx.lib(make, x, dt)
-    if case.get("form") == "pos":
+    arg0 = np.array(arg)
+    s = ctx.lib(make, arg, dt)
+    if form == "pos":
         ctx.lib(s.running_average, w)
+    elif form == "default":
+        ctx.lib(s.running_average)
     else:
         ctx.lib(s.running_average, width=w)
     out = np.asarray(s.values)
     ctx.shape(out, (n,), "values after running_average")
     ctx.check(s.npts == n and s.dt == dt, "npts / dt changed by running_average: %r, %r" % (s.npts, s.dt))
-    ctx.equal(x, x0, "caller's array modified by running_average")
-    xl = x.astype(LD)
-    csum = np.concatenate([[LD(0)], np.cumsum(xl)])
-    expect = np.empty(n, dtype=LD)
-    if n <= 400:
-        for i in range(n):
-            lo, hi = max(0, i - h), min(n - 1, i + h)
-            tot = LD(0)
-            for j in range(lo, hi + 1):
-                tot += xl[j]
-            expect[i] = tot / (hi - lo + 1)
-    else:
-        # same definition, window sums taken from a long-double prefix sum (error <= n * 2^-64 * max|x|, far below the tolerance)
-        i = np.arange(n)
-        lo, hi = np.maximum(0, i - h), np.minimum(n - 1, i + h)
-        expect = (csum[hi + 1] - csum[lo]) / (hi - lo + 1).astype(LD)
-    ctx.close(out, expect, 1e-12 * float(np.max(np.abs(x))),
-              "running_average(width=%d): sample vs mean of the original samples within %d positions" % (w, h))
+    ctx.equal(np.array(arg), arg0, "caller's record modified by running_average")
+    expect, tol = _avg_reference(x, h)
+    ctx.close(out, expect, tol,
+              "running_average(width=%d) of a %s record: sample vs mean of the original samples within %d positions" % (
+                  w, spec.get("as", "float64"), h))
+
+
+# ---------------------------------------------------------------------------
+# mid-range sizes and option crosses (DESIGN 8.5: a code path that only exists inside a window of record lengths - a blocked /
+# streamed / cached / FFT-padded variant - is invisible to generators that stop at 3000 samples and to the fixed giant sizes)
+
+_MID_DTS = (0.005, 0.01, 0.02, 0.004)
+
+
+def _mid_sizes(tier, lo, hi_quick, hi_thorough, count, tag):
+    """Ladder + mined sizes + one length in the top 5 % of the range (so that a window that opens anywhere below 0.95 hi is
+    entered at every seed, not only when the hash places the last rung high)."""
+    def top(hi):
+        return int(0.95 * hi) + _hh(gen.run_seed(), "top", tag, hi) % (hi - int(0.95 * hi) + 1)
+    if tier == "quick":
+        return sorted(set(gen.size_ladder(lo, hi_quick, count, tag)) | {top(hi_quick)})
+    return sorted(set(gen.size_ladder(lo, hi_thorough, 3 * count, tag + ":t", mined_limit=16)) | set(gen.ladder(lo, hi_quick, count, tag + ":t2"))
+                  | {top(hi_quick), top(hi_thorough)})
+
+
+def _mid_spec(n, tag, as_=None, amp=0):
+    h = _hh(gen.run_seed(), "rec", tag, n)
+    spec = {"k": "mid", "n": int(n), "seed": int(h % (2 ** 31 - 1)), "fam": int((h >> 8) % 3), "amp": amp}
+    if as_:
+        spec["as"] = as_
+    return spec
+
+
+def _mid_design(n, tag):
+    """A well-conditioned design whose lowest cut-off period fits >= 65 times into n samples (deterministic in (seed, tag, n):
+    candidates are tried in hash order until one passes the conditioning guard)."""
+    wmin = max(WN_LO, 130.0 / n)
+    for attempt in range(40):
+        h = _hh(gen.run_seed(), "design", tag, n, attempt)
+        order = 1 + h % 4
+        kind = ("low", "high", "band", "band")[(h >> 3) % 4]
+        u1 = ((h >> 8) % 10 ** 6) / 1e6
+        u2 = ((h >> 30) % 10 ** 6) / 1e6
+        w1 = wmin * (min(0.45, 25.0 * wmin) / wmin) ** u1
+        dt = _MID_DTS[(h >> 5) % 4]
+        nyq = 0.5 / dt
+        if kind == "low":
+            wn = (None, w1)
+        elif kind == "high":
+            wn = (w1, None)
+        else:
+            wn = (w1, min(WN_HI, w1 * MIN_RATIO * (40.0 / MIN_RATIO) ** u2))
+            if wn[1] < MIN_RATIO * w1:
+                continue
+        cut = [None if w is None else w * nyq for w in wn]
+        cond = conditioning(order, cut, dt)
+        if cond["ok"] and cond["rmax"] < 1.0 and 3.0 * _settle(cond) + 8 < n:
+            return order, cut, dt
+    raise HarnessError("no well-conditioned design found for n=%d" % n)
+
+
+def _settle(cond):
+    """Samples after which an edge transient of the forward-backward filter has decayed to 1e-14 (slowest pole), times 1.5 for the
+    polynomial prefactor of the repeated poles."""
+    return int(math.ceil(1.5 * math.log(1e-14) / math.log(cond["rmax"])))
+
+
+def _mid_butter_enum(tier, shard, nshards):
+    sizes = _mid_sizes(tier, 2000, 300000, 2000000, 13, "c17-butter")
+    i = 0
+    for n in sizes:
+        for rep in range(2 if tier == "quick" else 1):
+            h = _hh(gen.run_seed(), "mb", n, rep)
+            if i % nshards == shard:
+                order, cut, dt = _mid_design(n, "mb%d" % rep)
+                yield {"n": int(n), "order": order, "cut": cut, "dt": dt, "gibbs": GIBBS[(i + rep) % 4], "extra": [1, None, 2][h % 3],
+                       "grange": GRANGES[(h >> 4) % len(GRANGES)], "recv": ["Signal", "AccSignal"][(h >> 8) % 2],
+                       "container": CONTAINERS[(h >> 10) % 3], "phase": ((h >> 12) % 6283) / 1000.0,
+                       "gains": [0.9 + 0.099 * ((h >> 20) % 1000) / 1000.0, 0.05 + 0.8 * ((h >> 30) % 1000) / 1000.0,
+                                 10.0 ** (-6 + 4 * ((h >> 40) % 1000) / 1000.0)],
+                       "upper": [bool((h >> 50) & 1), bool((h >> 51) & 1), bool((h >> 52) & 1)],
+                       "rx": _mid_spec(n, "mbx%d" % rep), "ry": _mid_spec(n, "mby%d" % rep, as_=[None, "int", "list"][(h >> 54) % 3]),
+                       "alpha": 1.0 + ((h >> 14) % 1000) / 250.0, "beta": -0.5 - ((h >> 24) % 1000) / 500.0}
+            i += 1
+
+
+@enum_clause(CLAUSES, "mid-range-butter", _mid_butter_enum,
+             rule="record lengths on a logarithmic ladder 2000..300000 (thorough: ..2e6, three times as dense) + lengths aimed at the "
+                  "integer literals of the source under test; per length two well-conditioned designs (order, type, cut-offs, dt by hash; "
+                  "lowest cut-off period <= n/65), remove_gibbs rotating through {None,start,end,mid}, gibbs_extra in {omitted,1,2}, "
+                  "gibbs_range in {omitted,1,7,50,200,1e5}, Signal / AccSignal, cut-offs as list / tuple / ndarray",
+             oracle="reference model: three sinusoids (pass / transition / stop band) of exactly n samples: filtered == g(f) x on ALL samples "
+                    "further than 1.5 ln(1e-14)/ln(r_max) from both ends (tolerance as butter-gain with the transient term 1e-14); "
+                    "metamorphic on the WHOLE output: filter(alpha x + beta y) == alpha filter(x) + beta filter(y) for an ordinary record "
+                    "x and a second one (float64 / int64 / list), 16 eps (kappa+4) scale; length, npts, dt preserved",
+             exhaustive_note="the laddered lengths of this seed", quick_shards=4)
+def mid_range_butter(case, ctx):
+    n, order, cut, dt = case["n"], case["order"], case["cut"], case["dt"]
+    gibbs, extra, grange, recv = case["gibbs"], case["extra"], case["grange"], case["recv"]
+    if not _design_in_domain(order, cut, dt):
+        raise ValueError("case outside the domain of clause mid-range-butter")
+    cond = conditioning(order, cut, dt)
+    if not cond["ok"]:
+        raise ValueError("case outside the domain of clause mid-range-butter (design not well conditioned)")
+    _design_classes(ctx, order, cut, dt)
+    ctx.cls("gibbs=%s" % gibbs, "recv=" + recv, "n>=2^%d" % int(math.log2(n)))
+    ctx.nt()
+    kwargs = _butter_kwargs(order, gibbs, extra, "kw", grange)
+    cut_arg = _cut_arg(cut, case["container"])
+    nyq = 0.5 / dt
+    m = min(n // 3, _settle(cond))
+    tol_gain = min(GAIN_TOL, GAIN_FLOOR + GAIN_FACTOR * (U * cond["kappa"] + (1e-14 if m < n // 3 else cond["rmax"] ** m)))
+    i = np.arange(n, dtype=float)
+    for g_t, upper in zip(case["gains"], case["upper"]):
+        f = float(min(_freq_for_gain(order, cut, dt, g_t, upper), F_MAX * nyq))
+        g = analytic_gain(order, cut, f, dt)
+        x = np.sin((2.0 * math.pi * f * dt) * i + case["phase"])
+        y = _filtered(ctx, x, dt, cut_arg, kwargs, recv=recv)
+        ctx.finite(y, "filtered sinusoid")
+        ctx.close(y[m:n - m], g * x[m:n - m], tol_gain,
+                  "filtered sinusoid vs g(f)*x on samples %d..%d of %d (g=%.6g, order %d, cut-offs %r Hz, f=%r Hz, dt=%r, remove_gibbs=%r, "
+                  "gibbs_extra=%r, gibbs_range=%r)" % (m, n - m - 1, n, g, order, cut, f, dt, gibbs, extra, grange))
+    ax = _container(case["rx"], _build(case["rx"]))
+    ay = _container(case["ry"], _build(case["ry"]))
+    x, y = np.array(ax, dtype=float), np.array(ay, dtype=float)
+    al, be = case["alpha"], case["beta"]
+    fx = _filtered(ctx, ax, dt, cut_arg, kwargs, recv=recv)
+    fy = _filtered(ctx, ay, dt, cut_arg, kwargs, recv=recv)
+    fc = _filtered(ctx, al * x + be * y, dt, cut_arg, kwargs, recv=recv)
+    scale = abs(al) * float(np.max(np.abs(x))) + abs(be) * float(np.max(np.abs(y)))
+    ctx.finite(fc, "filtered combination")
+    ctx.close(fc, al * fx + be * fy, 16 * EPS * (cond["kappa"] + 4) * scale,
+              "filter(alpha x + beta y) vs alpha filter(x) + beta filter(y) (n=%d, order %d, cut-offs %r Hz, dt=%r, remove_gibbs=%r)" % (
+                  n, order, cut, dt, gibbs))
+
+
+def _mid_options_enum(tier, shard, nshards):
+    import itertools
+    i = 0
+    for order, kind, gibbs, extra, grange, cont, recv in itertools.product(
+            (1, 2, 3, 4), ("low", "high", "band"), GIBBS, (None, 1, 2), (None, 7, 100000), CONTAINERS, ("Signal", "AccSignal")):
+        if gibbs is None and (extra is not None or grange is not None):
+            continue  # without padding the two padding options are not read
+        h = _hh(gen.run_seed(), "opt", i)
+        # quick tier: every other combination (which half alternates with the seed); thorough: all of them
+        if i % nshards == shard and (tier != "quick" or (h >> 3) % 2 == gen.run_seed() % 2):
+            u1, u2 = ((h >> 8) % 10 ** 6) / 1e6, ((h >> 30) % 10 ** 6) / 1e6
+            w1 = 0.1 * (4.0 ** u1)
+            wn = (None, w1) if kind == "low" else ((w1, None) if kind == "high" else (w1, min(WN_HI, w1 * 1.5 * 4.0 ** u2)))
+            dt = _MID_DTS[h % 4]
+            yield {"order": order, "cut": [None if w is None else w * 0.5 / dt for w in wn], "dt": dt, "gibbs": gibbs, "extra": extra,
+                   "grange": grange, "container": cont, "recv": recv, "n": 1300 + (h >> 12) % 3000, "phase": ((h >> 24) % 6283) / 1000.0,
+                   "g": 0.2 + 0.6 * ((h >> 40) % 1000) / 1000.0, "upper": bool((h >> 52) & 1), "seed": int(h % (2 ** 31 - 1))}
+        i += 1
+
+
+@enum_clause(CLAUSES, "mid-range-options", _mid_options_enum,
+             rule="butter_pass over the FULL cross product of its options: order 1..4 x type {low, high, band} x remove_gibbs "
+                  "{None,start,end,mid} x gibbs_extra {omitted,1,2} x gibbs_range {omitted,7,1e5} x cut-off container {list,tuple,ndarray} x "
+                  "receiver {Signal, AccSignal}; cut-offs 0.1..0.4 of Nyquist by hash, records of 1300..4300 samples",
+             oracle="reference model: a transition-band sinusoid: middle third == g(f) x (tolerance as butter-gain: a time shift or a wrong "
+                    "order shows here); metamorphic on the whole output: linearity against a noise record; length, npts, dt preserved",
+             exhaustive_note="every combination of the listed option values (quick tier: a hash-chosen half, the other half at the next seed)",
+             quick_shards=4)
+def mid_range_options(case, ctx):
+    order, cut, dt, n = case["order"], case["cut"], case["dt"], case["n"]
+    gibbs, extra, grange, recv = case["gibbs"], case["extra"], case["grange"], case["recv"]
+    if not _design_in_domain(order, cut, dt):
+        raise ValueError("case outside the domain of clause mid-range-options")
+    cond = conditioning(order, cut, dt)
+    if not cond["ok"]:
+        raise ValueError("case outside the domain of clause mid-range-options (design not well conditioned)")
+    ctx.cls("order=%d" % order, "type=" + _ftype(cut), "gibbs=%s" % gibbs, "extra=%s" % extra, "grange=%s" % grange, "recv=" + recv)
+    ctx.nt()
+    kwargs = _butter_kwargs(order, gibbs, extra, "kw", grange)
+    cut_arg = _cut_arg(cut, case["container"])
+    f = float(min(_freq_for_gain(order, cut, dt, case["g"], case["upper"]), F_MAX * 0.5 / dt))
+    g = analytic_gain(order, cut, f, dt)
+    x = np.sin((2.0 * math.pi * f * dt) * np.arange(n, dtype=float) + case["phase"])
+    fx = _filtered(ctx, x, dt, cut_arg, kwargs, recv=recv)
+    lo, hi = n // 3, (2 * n) // 3
+    ctx.close(fx[lo:hi], g * x[lo:hi], _gain_tol(cond, lo, 1),
+              "middle third of the filtered sinusoid vs g(f)*x (g=%.6g, order %d, cut-offs %r Hz, f=%r Hz, dt=%r, remove_gibbs=%r, "
+              "gibbs_extra=%r, gibbs_range=%r, %s, cut-offs as %s)" % (g, order, cut, f, dt, gibbs, extra, grange, recv, case["container"]))
+    y = np.random.RandomState(case["seed"]).standard_normal(n) + 0.3
+    fy = _filtered(ctx, y, dt, cut_arg, kwargs, recv=recv)
+    fc = _filtered(ctx, 0.75 * x - 1.5 * y, dt, cut_arg, kwargs, recv=recv)
+    scale = 0.75 + 1.5 * float(np.max(np.abs(y)))
+    ctx.close(fc, 0.75 * fx - 1.5 * fy, 16 * EPS * (cond["kappa"] + 4) * scale,
+              "filter(0.75 x - 1.5 y) vs 0.75 filter(x) - 1.5 filter(y) (order %d, cut-offs %r Hz, remove_gibbs=%r, gibbs_extra=%r, "
+              "gibbs_range=%r)" % (order, cut, gibbs, extra, grange))
+
+
+def _mid_detrend_enum(tier, shard, nshards):
+    sizes = _mid_sizes(tier, 2000, 300000, 1500000, 12, "c17-detrend")
+    i = 0
+    for j, n in enumerate(sizes):
+        ks = sorted({(j + gen.run_seed()) % 5, (j + gen.run_seed() + 2) % 5}) if tier == "quick" else [0, 1, 2, 3, 4]
+        for k in ks:
+            h = _hh(gen.run_seed(), "md", n, k)
+            if i % nshards == shard:
+                as_ = [None, None, "int", "list", "view"][(h >> 4) % 5] if n <= 400000 else None
+                rs = np.random.RandomState(int(h % (2 ** 31 - 1)))
+                sec = [None, int(1 + (h >> 20) % n), -int(1 + (h >> 20) % (n - 1)), int(n)][(h >> 12) % 4]
+                yield {"rec": _mid_spec(n, "md%d" % k, as_=as_, amp=(2 if as_ == "int" else 0)), "k": k, "dt": _MID_DTS[h % 4],
+                       "coef": [float(c) for c in rs.uniform(-100, 100, k + 1)],
+                       "form": ["kw", "pos", "default" if k == 0 else "kw"][(h >> 8) % 3], "section": sec,
+                       "recv": ["Signal", "AccSignal"][(h >> 16) % 2]}
+            i += 1
+
+
+@enum_clause(CLAUSES, "mid-range-detrend", _mid_detrend_enum,
+             rule="record lengths on a logarithmic ladder 2000..300000 (thorough: ..1.5e6, denser) + lengths aimed at the integer literals "
+                  "of the source; two degrees per length in the quick tier (rotating, all five over the ladder), all five in the thorough "
+                  "tier; ordinary records (noise x envelope / sines / walk, with offset and drift) as float64 / int64 / list / strided view; "
+                  "keyword / positional / default call, Signal / AccSignal; remove_average with default / positive / negative / full section",
+             oracle="as clause detrend, on the whole output (orthonormal polynomial basis by QR on the n-point grid)",
+             exhaustive_note="the laddered lengths of this seed", quick_shards=4)
+def mid_range_detrend(case, ctx):
+    detrend(case, ctx)
+
+
+def _mid_add_enum(tier, shard, nshards):
+    sizes = _mid_sizes(tier, 2000, 300000, 2000000, 10, "c17-add")
+    i = 0
+    for n in sizes:
+        for op in ("constant", "series", "signal", "series-bad", "signal-bad"):
+            h = _hh(gen.run_seed(), "ma", n, op)
+            if i % nshards == shard:
+                as_ = [None, None, "int", "list", "intlist"][(h >> 4) % 5] if n <= 400000 else None
+                case = {"rec": _mid_spec(n, "ma" + op, as_=as_, amp=(2 if as_ in ("int", "intlist") else 0)), "dt": _MID_DTS[h % 4],
+                        "op": op.split("-")[0], "self": ["Signal", "AccSignal"][(h >> 8) % 2]}
+                if op == "constant":
+                    case["c"] = [0.37, -1234.5, 7][(h >> 12) % 3]
+                else:
+                    case["other"] = _mid_spec(n, "mao" + op)
+                    case["dlen"] = 0 if not op.endswith("bad") or (op == "signal-bad" and (h >> 20) % 2) else [-1, 1, -n // 2][(h >> 12) % 3]
+                    if case["op"] == "series":
+                        case["as"] = ["ndarray", "list", "tuple"][(h >> 16) % 3]
+                    else:
+                        case["cls"] = ["Signal", "AccSignal"][(h >> 16) % 2]
+                        case["non"] = None
+                        case["dtf"] = 1.0
+                        if op == "signal-bad" and case["dlen"] == 0:
+                            case["dtf"] = 1.0 + [1.0, -1.0][(h >> 24) % 2] * 10.0 ** (-12 + 9 * ((h >> 28) % 1000) / 1000.0)
+                yield case
+            i += 1
+
+
+@enum_clause(CLAUSES, "mid-range-add", _mid_add_enum,
+             rule="record lengths on a logarithmic ladder 2000..300000 (thorough: ..2e6, denser) + lengths aimed at the integer literals of "
+                  "the source; per length add_constant, add_series, add_signal and one rejected add_series (length off by -1 / +1 / half) "
+                  "and add_signal (wrong length or a time step off by 1e-12..1e-3); float64 / int64 / list records, Signal / AccSignal",
+             oracle="as clause add: element-wise sums over the WHOLE record (==); rejections raise and leave the signal unchanged",
+             exhaustive_note="the laddered lengths of this seed", quick_shards=4)
+def mid_range_add(case, ctx):
+    add(case, ctx)
+
+
+def _mid_avg_enum(tier, shard, nshards):
+    sizes = _mid_sizes(tier, 2000, 200000, 600000, 11, "c17-avg")
+    i = 0
+    for n in sizes:
+        h = _hh(gen.run_seed(), "mv", n)
+        if i % nshards == shard:
+            w = 1 + (h >> 4) % 25
+            if w == 1:
+                w = 3
+            as_ = [None, None, "int", "intlist", "view"][(h >> 12) % 5] if n <= 100000 else None
+            yield {"rec": _mid_spec(n, "mv", as_=as_, amp=(2 if as_ in ("int", "intlist") else 0)), "dt": _MID_DTS[h % 4], "w": int(w),
+                   "form": ["kw", "pos"][(h >> 20) % 2], "self": ["Signal", "AccSignal"][(h >> 24) % 2]}
+        i += 1
+
+
+@enum_clause(CLAUSES, "mid-range-average", _mid_avg_enum,
+             rule="record lengths on a logarithmic ladder 2000..200000 (thorough: ..600000, denser) + lengths aimed at the integer literals "
+                  "of the source; width 2..25 by hash; float64 / int64 / int-list / strided records, Signal / AccSignal",
+             oracle="as clause running-average, every sample (long-double prefix sums)",
+             exhaustive_note="the laddered lengths of this seed", quick_shards=4)
+def mid_range_average(case, ctx):
+    running_average(case, ctx)
+
+
+def _mid_history_enum(tier, shard, nshards):
+    sizes = gen.ladder(3000, 120000, 6, "c17-hist") if tier == "quick" else gen.size_ladder(3000, 400000, 14, "c17-hist:t")
+    for i, n in enumerate(sizes):
+        if i % nshards != shard:
+            continue
+        h = _hh(gen.run_seed(), "mh", n)
+        o1, c1, d1 = _mid_design(n, "mh1")
+        o2, c2, d2 = _mid_design(n, "mh2")
+        ops = [["add_constant", 0.61], ["butter", o1, c1, GIBBS[(h >> 4) % 4]], ["add_series", 1], ["running_average", 2 + (h >> 8) % 24],
+               ["remove_poly", (h >> 14) % 5], ["butter", o2, [c * d2 / d1 if c is not None else None for c in c2], GIBBS[(h >> 18) % 4]],
+               ["add_signal", 2], ["remove_average"], ["butter", o1, c1, GIBBS[(h >> 4) % 4]], ["remove_poly", (h >> 22) % 5],
+               ["running_average", 3 + (h >> 26) % 20]]
+        # rotate the chain so that different lengths start with different operations
+        r = (h >> 32) % len(ops)
+        yield {"n": int(n), "dt": d1, "rec": _mid_spec(n, "mh"), "recv": ["Signal", "AccSignal"][(h >> 40) % 2], "ops": ops[r:] + ops[:r]}
+
+
+@enum_clause(CLAUSES, "mid-range-history", _mid_history_enum,
+             rule="ONE object (Signal / AccSignal) of 3000..120000 samples (thorough: ..400000) taken through a chain of eleven operations "
+                  "(add_constant, butter_pass x3 with two designs and two Gibbs modes, add_series, running_average x2, remove_poly x2, "
+                  "add_signal, remove_average), the chain rotated by hash",
+             oracle="after every step the values are compared with that operation's reference applied to the values before it: element-wise "
+                    "sum (==), long-double running mean, x - P_k x (orthonormal basis, 1e-8 max|x|), one constant removed, and for butter_pass "
+                    "the same call on a FRESH object holding the same values (8 eps (kappa+4) max|x|: what an object did before is no input)",
+             exhaustive_note="the laddered lengths of this seed", quick_shards=4)
+def mid_range_history(case, ctx):
+    n, dt = case["n"], case["dt"]
+    recv = case.get("recv", "Signal")
+    make = eqsig.AccSignal if recv == "AccSignal" else eqsig.Signal
+    x0 = _build(case["rec"])
+    s = ctx.lib(make, x0.copy(), dt)
+    ctx.cls("recv=" + recv, "n>=2^%d" % int(math.log2(n)))
+    ctx.nt()
+    cur = np.array(s.values, dtype=float)
+    for step, op in enumerate(case["ops"]):
+        name = op[0]
+        what = "step %d (%s) of the history on one %s of %d samples" % (step, name, recv, n)
+        scale = float(np.max(np.abs(cur)))
+        if name == "add_constant":
+            ctx.lib(s.add_constant, op[1])
+            expect, tol = cur + op[1], 0.0
+        elif name in ("add_series", "add_signal"):
+            o = _build(_mid_spec(n, "mh-o%d" % op[1]))
+            if name == "add_series":
+                ctx.lib(s.add_series, o.copy())
+            else:
+                ctx.lib(s.add_signal, make(o.copy(), dt))
+            expect, tol = cur + o, 0.0
+        elif name == "running_average":
+            ctx.lib(s.running_average, width=op[1])
+            expect, tol = _avg_reference(cur, op[1] // 2)
+        elif name == "remove_poly":
+            ctx.lib(s.remove_poly, poly_fit=op[1])
+            expect, tol = cur - _project(_poly_basis(n, op[1]), cur), 1e-8 * scale
+        elif name == "remove_average":
+            ctx.lib(s.remove_average)
+            out = np.asarray(s.values, dtype=float)
+            d = (cur - out).astype(LD)
+            ctx.close(d, np.full(n, d[0]), 4 * EPS * (np.abs(cur) + np.abs(out)), what + ": the removed part is not one constant")
+            m_all, m_sec = float(np.mean(cur.astype(LD))), float(np.mean(cur[:-1].astype(LD)))
+            ctx.check(min(abs(float(d[0]) - m_all), abs(float(d[0]) - m_sec)) <= (n + 8) * EPS * scale,
+                      what + ": removed constant %r is neither the mean of the record %r nor of values[:-1] %r" % (float(d[0]), m_all, m_sec))
+            cur = out
+            continue
+        else:
+            order, cut, gibbs = op[1], op[2], op[3]
+            cond = conditioning(order, cut, dt)
+            ctx.lib(s.butter_pass, cut, filter_order=order, remove_gibbs=gibbs)
+            fresh = ctx.lib(make, cur.copy(), dt)
+            ctx.lib(fresh.butter_pass, cut, filter_order=order, remove_gibbs=gibbs)
+            expect, tol = np.asarray(fresh.values, dtype=float), 8 * EPS * (cond["kappa"] + 4) * scale
+        out = np.asarray(s.values)
+        ctx.shape(out, (n,), what)
+        ctx.check(s.npts == n and s.dt == dt, what + ": npts / dt changed: %r, %r" % (s.npts, s.dt))
+        if np.ndim(tol) == 0 and tol == 0.0:
+            ctx.equal(out, expect, what)
+        else:
+            ctx.close(out, expect, tol, what)
+        cur = np.array(out, dtype=float)
